@@ -59,8 +59,11 @@ def declared_model(draw):
         cover = [j for j in range(nrv) if draw(st.integers(0, 3)) > 0]
         if s == 0:
             cover = list(range(nrv)) if draw(st.booleans()) else (cover or [0])
-        if not cover:
+        if s > 0 and nld and draw(st.integers(0, 5)) == 0:
+            cover = []
+        elif not cover:
             cover = [draw(st.integers(0, nrv - 1))]
+        # (an empty cover is the set written forall() without arguments: every random array is unrestricted)
         pieces = []
         for j in cover:
             n = rv[j]['n']
@@ -132,9 +135,10 @@ def declared_model(draw):
                 b.append([0.0] * ld[k]['n'])
         c = {str(j): _vec(draw, rv[j]['n']) for j in cover if draw(st.integers(0, 2)) > 0}
         bil = None
-        if draw(st.integers(0, 3)) == 0:
+        if draw(st.integers(0, 3)) == 0 or not cover:
+            # under an empty set the random array of the product is unrestricted: the product's coefficient M'x has to vanish
             i = draw(st.integers(1, ndv))
-            j = draw(st.sampled_from(cover))
+            j = draw(st.sampled_from(cover or list(range(nrv))))
             bil = {'dv': i, 'rv': j, 'M': [_vec(draw, rv[j]['n'], [-1.0, 0.0, 1.0]) for _ in range(dv[i]['n'])]}
         # random terms that are added to the stored expression object only when the constraint is written (a random array
         # may be declared in between)
